@@ -468,6 +468,46 @@ func runC13Case(ctx *Ctx, c c13Case) {
 			}
 		}
 	}
+	// store burst: six writers store the same 300 brand-new identifiers at the same moment, into two datasets
+	{
+		var bw sync.WaitGroup
+		go3 := make(chan struct{})
+		var ents []model.Ent
+		for k := 0; k < 300; k++ {
+			u := fmt.Sprintf("http://storeburst.example.org/%s/e%d", id, k)
+			ents = append(ents, model.Ent{ID: u, Props: map[string]any{u + "-p": "v"}, Refs: map[string]any{fmt.Sprintf("http://storeburst.example.org/%s/r%d", id, k%7): fmt.Sprintf("http://storeburst.example.org/%s/e%d", id, (k+1)%300)}})
+		}
+		for g := 0; g < 6; g++ {
+			bw.Add(1)
+			go func(g int) {
+				defer bw.Done()
+				<-go3
+				if err := StoreBatch(core, []string{"da", "db"}[g%2], ents, false); err != nil {
+					mu.Lock()
+					panics = append(panics, "store burst: "+err.Error())
+					mu.Unlock()
+				}
+			}(g)
+		}
+		close(go3)
+		bw.Wait()
+		ctx.Out.Stat("c13_identifiers_stored_by_six_writers_at_once", 300)
+	}
+	// last write before the restart: a transaction that only UPDATES an existing entity and thereby introduces a new
+	// predicate and a new reference target (identifiers nobody has used before)
+	txnPred := fmt.Sprintf("http://txnonly.example.org/%s/pred", id)
+	txnTarget := fmt.Sprintf("http://txnonly.example.org/%s/target", id)
+	txnSubject := fmt.Sprintf("http://storeburst.example.org/%s/e0", id)
+	if err := StoreTxn(core, map[string][]model.Ent{"da": {{ID: txnSubject, Props: map[string]any{txnSubject + "-p": "v2"}, Refs: map[string]any{txnPred: txnTarget}}}}); err != nil {
+		ctx.Out.Viol(id, "C13", "update-transaction-refused", err.Error(), nil, nil, nil)
+	}
+	checkTxnIDs := func(c *hub.Core, when string) {
+		r, err := obs.Related(c.Store, txnSubject, txnPred, false, []string{"da"}, 0)
+		if err != nil || !r.Set()[model.Pair{Pred: txnPred, Other: txnTarget}] {
+			ctx.Out.Viol(id, "C13", "identifiers-of-update-transaction-lost", fmt.Sprintf("%s: an acknowledged transaction that only updated %s introduced predicate %s and target %s; the relation query by that predicate answers %v (err %v)", when, txnSubject, txnPred, txnTarget, model.PairList(r.Set()), err), txnTarget, model.PairList(r.Set()), nil)
+		}
+	}
+	checkTxnIDs(core, "before the restart")
 	collect(core)
 	// every identifier that was stored resolves to its entity, and the id indexes are mutually inverse
 	resolve := func(c *hub.Core, when string) {
@@ -511,6 +551,7 @@ func runC13Case(ctx *Ctx, c c13Case) {
 	}
 	collect(core2)
 	resolve(core2, "after the restart")
+	checkTxnIDs(core2, "after the restart")
 	// new namespaces after the restart get prefixes that were never used
 	for i := 0; i < 3; i++ {
 		exp := fmt.Sprintf("http://after.restart/%d/", i)
